@@ -459,8 +459,8 @@ class FuncBody:
             return "(%s %s %s)" % (self.expr(depth - 1), op, b)
         if c < 0.70:
             op = r.choice(("-", "~", "!", "+"))
-            a, t = self.atom() if r.random() < 0.5 else (self.expr(depth - 1), "int")
-            if op in "-~" and (self.p.base_of(t) in SUBINT or a.startswith("'")):
+            a, t = self.atom() if r.random() < 0.5 else (self.expr(depth - 1), "?")
+            if op in "-~" and (t == "?" or self.p.base_of(t) in SUBINT or a.startswith("'")):
                 # ppci does not promote the operand (and types 'a' as char): an 8/16-bit NEG/INV results
                 if A_NARROW in self.p.avoid:
                     a = "((int)%s)" % a
